@@ -155,6 +155,18 @@ impl G {
             self.dispf.push(f);
             return out;
         }
+        // a variable bound from the flowing value; later the flowing value - another one by then - is
+        // type-tested: that test says nothing about the variable
+        if rng.chance(1, 16) {
+            let v = self.fresh("sv");
+            out.push(s(format!("{{ | 1 =1 => {} | 0x00 }}", rng.range(1, 90))));
+            out.push(s(format!("={v}")));
+            out.push(s("{ | 1 =1 => 0x01 | 7 }".to_string()));
+            // (a fallible pattern step: the line's result type includes nil)
+            out.push(Step { narrows: Some("~".to_string()), ..s(format!("='bin, {v} {{ | ='int => 1 | 2 }}")) });
+            self.last_int = true;
+            return out;
+        }
         if rng.chance(1, 14) {
             let u = self.fresh("u");
             out.push(s(format!("{u} = {} wd", rng.range(1, 90))));
@@ -871,6 +883,14 @@ impl Property for C11 {
                                 return v;
                             }
                             if ty != wty {
+                                // a variable bound from the flowing value (`=name`) right after a line whose
+                                // result type includes nil inherits that nil: the known flow finding, seen
+                                // through the variable's type
+                                let flow_bound = e.steps.iter().any(|s| s.src == format!("={n}"));
+                                if flow_bound && *ty == format!("{wty} | []") {
+                                    v.push(Violation::new("C11", "line-value", "flow-typed-maybe-nil-after-fallible-line", format!("after step {end} variable {n}, bound from the flowing value, has type {ty} in the session but {wty} in the one-shot program"), r.steps));
+                                    return v;
+                                }
                                 v.push(Violation::new("C11", "variables", "different-type", format!("after step {end} variable {n} : {ty} in the session but {wty} in the one-shot program"), r.steps));
                                 return v;
                             }
